@@ -22,8 +22,10 @@ POSITIONS = [
     ('OBX|1|{}|A||1||||||F', 'OBX-2 ID'), ('NTE|1||{}', 'NTE-3 FT'), ('EVN||{}', 'EVN-2 TS'), ('PID|||1||S^{}', 'XPN-2 ST'),
     ('PID|||1^^^^^^{}||S', 'CX-7 DT'), ('AL1|{}|DA|X', 'AL1-1 SI'), ('OBX|1|TM|A||{}||||||F', 'OBX-5 varies (TM)'),
     ('PID|||1||S|||||||||||||||||||||{}', 'PID-30 ID'), ('NK1|1|N|||||||||||||||||||||||||||||||||||{}', 'NK1-37 ST'),
+    ('PID|||1||S||||||||{}', 'PID-13 XTN/TN (v2.3)', '2.3'), ('NK1|1|N|||{}', 'NK1-5 TN (v2.2)', '2.2'),
+    ('PID|||1||S||||||||^^^^{}', 'XTN-5 SNM (v2.7)', '2.7'),
 ]
-LITERALS = ['', '1', '0001', '12345', '-1', '1.5', 'abc', '20200101', '2020', '202013', '20200230', '20200229', '1200', '2500',
+LITERALS = ['1' * 250, '555-' + '1' * 250, '', '1', '0001', '12345', '-1', '1.5', 'abc', '20200101', '2020', '202013', '20200230', '20200229', '1200', '2500',
             '120000.1234+0100', '12+1500', '20200101120000.12345', 'x' * 250, 'a^b', 'a&b', 'a~b', ' 1', '1 ', '+5', '1_0', 'NaN',
             '1E3', 'M', 'Y', '\\F\\', 'a\\b', '19000101000000+1400', '99', '0', '00', '1.', '.5', 'A^B^C^D^E^F^G^H^I^J^K^L^M^N^O^P^Q^R^S^T^U^V^W^X']
 NP, NLIT = len(POSITIONS), len(LITERALS)
@@ -34,9 +36,25 @@ def _report(el):
     return [str(e) for e in r.errors], [str(w) for w in r.warnings]
 
 
+def _overlong_leaves(el):
+    """leaves of a STRICT-accepted element whose datatype object holds a value longer than its own max_length"""
+    out = []
+    if el.classname == 'SubComponent':
+        v = el.value
+        ml = getattr(v, 'max_length', None)
+        if v is not None and ml is not None:
+            if len('{0}'.format(v.value if v.value is not None else '')) > ml:
+                out.append('%s(%d chars, max %d)' % (type(v).__name__, len('{0}'.format(v.value)), ml))
+        return out
+    for c in el.children:
+        out += _overlong_leaves(c)
+    return out
+
+
 def text_check(pi, li, trace=None):
     reset_defaults()
     text = POSITIONS[pi][0].format(LITERALS[li])
+    V = POSITIONS[pi][2] if len(POSITIONS[pi]) > 2 else '2.5'
     try:
         s = parse_segment(text, version=V, validation_level=1)
     except Exception as e:
@@ -52,9 +70,11 @@ def text_check(pi, li, trace=None):
     es, et = s.to_er7(), t.to_er7()
     rs, rt = _report(s), _report(t)
     only_missing = all(e.startswith('Missing required child') for e in rs[0])
+    overlong = _overlong_leaves(s)
     if trace is not None:
-        trace.append('%s, leaf %r: text %r\n  STRICT   -> %r report %r\n  TOLERANT -> %r report %r' % (POSITIONS[pi][1], LITERALS[li], text, es, rs, et, rt))
-    return es == et and rs == rt and only_missing
+        trace.append('%s, leaf %r: text %r\n  STRICT   -> %r report %r\n  TOLERANT -> %r report %r\n  over-long leaves kept by STRICT: %r' % (
+            POSITIONS[pi][1], LITERALS[li][:40], text[:120], es[:120], rs, et[:120], rt, overlong))
+    return es == et and rs == rt and only_missing and not overlong
 
 
 def hist_check(target, init, acts, trace=None):
@@ -91,6 +111,146 @@ def hist_check(target, init, acts, trace=None):
                 continue      # recorded finding: STRICT encodes groups in structure order, TOLERANT in insertion order
             return False
     return True
+
+
+# ---- A.api: things one can try under STRICT through the API; each must be refused, or leave an element the validator accepts
+#      (missing required children aside) with no over-long leaf.  (id, recorded finding or None, function)
+def _api_items():
+    from hl7apy.core import Segment, Field, Component, SubComponent
+    from hl7apy.base_datatypes import ST, SI, NM
+    S = 1
+
+    def obx5_setter():
+        seg = Segment('OBX', version=V, validation_level=S)
+        seg.obx_1 = '1'
+        seg.obx_2 = 'ST'
+        seg.obx_3 = 'A'
+        seg.obx_11 = 'F'
+        seg.obx_5 = 'x'
+        seg.obx_5[0].datatype = 'NM'
+        return seg
+
+    def field_override():
+        return Field('PID_5', datatype='CE', version=V, validation_level=S)
+
+    def field_setter_override():
+        f = Field('PID_8', version=V, validation_level=S)
+        f.datatype = 'ST'
+        return f
+
+    def sub_wrong_class():
+        sc = SubComponent(datatype='NM', version=V, validation_level=S)
+        sc.value = ST('abc')
+        c = Component(datatype='NM', version=V, validation_level=S)
+        c.add(sc)
+        f = Field('OBX_5', version=V, validation_level=S)   # varies
+        return sc
+
+    def field_overlong_instance():
+        f = Field('PID_1', version=V, validation_level=S)
+        f.value = SI(12345, validation_level=2)
+        return f
+
+    def qpd_extra():
+        seg = Segment('QPD', version=V, validation_level=S)
+        seg.qpd_1 = 'A'
+        seg.qpd_8 = 'abc'
+        return seg
+
+    def field_varies_override():
+        f = Field('PID_5', datatype='varies', version=V, validation_level=S)
+        if f.datatype != 'XPN':
+            f.__dict__['datatype_overridden'] = True
+        return f
+
+    def dup_single():
+        seg = Segment('PID', version=V, validation_level=S)
+        seg.pid_3 = '1'
+        seg.pid_5 = 'S'
+        seg.pid_8 = 'M'
+        seg.add(Field('PID_8', version=V, validation_level=S))
+        return seg
+
+    def foreign_field():
+        seg = Segment('PID', version=V, validation_level=S)
+        seg.add(Field('EVN_1', version=V, validation_level=S))
+        return seg
+
+    def unknown_field():
+        seg = Segment('PID', version=V, validation_level=S)
+        seg.add(Field(version=V, validation_level=S))
+        return seg
+
+    def invalid_value():
+        seg = Segment('PID', version=V, validation_level=S)
+        seg.pid_7 = 'notadate'
+        return seg
+
+    def nm_instance_ok():
+        f = Field('OBX_1', version=V, validation_level=S)
+        f.value = SI(1, validation_level=S)
+        return f
+
+    return [('obx5-datatype-setter', None, obx5_setter), ('field-ctor-datatype-override', None, field_override),
+            ('field-setter-datatype-override', None, field_setter_override),
+            ('subcomponent-wrong-datatype-object', 'C05-datatype-object-unchecked', sub_wrong_class),
+            ('overlong-datatype-object-built-tolerant', 'C05-datatype-object-unchecked', field_overlong_instance),
+            ('qpd-extra-field', 'C05-open-ended-extra-field', qpd_extra), ('field-ctor-varies-override', 'C05-varies-override', field_varies_override),
+            ('duplicate-single-field', None, dup_single), ('foreign-field', None, foreign_field), ('unknown-field', None, unknown_field),
+            ('invalid-value', None, invalid_value), ('valid-datatype-object', None, nm_instance_ok)]
+
+
+API = _api_items()
+NAPI = len(API)
+
+
+def api_check(i, trace=None):
+    reset_defaults()
+    name, finding, fn = API[i]
+    if finding and known_open(finding):
+        return True
+    try:
+        el = fn()
+    except Exception as e:
+        if trace is not None:
+            trace.append('%s: refused under STRICT (%s: %s)' % (name, type(e).__name__, e))
+        return True
+    root = el
+    errs = _report(root)[0]
+    bad = [e for e in errs if not e.startswith('Missing required child')]
+    if el.__dict__.get('datatype_overridden'):
+        bad.append('the official datatype has been overridden: %r' % (el.datatype,))
+    over = _overlong_leaves(root)
+    if trace is not None:
+        trace.append('%s: accepted under STRICT -> %r ; validator errors other than missing children: %r ; over-long leaves: %r' % (
+            name, root.to_er7(), bad, over))
+    return not bad and not over
+
+
+def _ob_api(i: int) -> bool:
+    """
+    pre: 0 <= i < NAPI
+    post: _
+    """
+    i = bsearch(i, NAPI)
+    with concrete():
+        return api_check(i)
+
+
+def _witness(fid):
+    return all(api_check(i) for i, a in enumerate(API) if a[1] == fid)
+
+
+def _witness_dtobj():
+    return _witness('C05-datatype-object-unchecked')
+
+
+def _witness_openended():
+    return _witness('C05-open-ended-extra-field')
+
+
+def _witness_varies():
+    return _witness('C05-varies-override')
 
 
 SEG_ACTS = H.actions('seg', H.FULL_OPS)
@@ -148,6 +308,17 @@ def explain(call):
     m = re.match(r'(\w+)\((.*)\)$', call, re.S)
     a, kw = eval('(lambda *a, **k: (a, k))(%s)' % m.group(2))
     tr = []
+    if m.group(1) == '_ob_api':
+        api_check(a[0] if a else kw['i'], tr)
+        return '\n'.join(tr)
+    if m.group(1).startswith('_witness'):
+        for i in range(NAPI):
+            if API[i][1]:
+                try:
+                    api_check(i, tr)
+                except Exception as e:
+                    tr.append('%s raised %r' % (API[i][0], e))
+        return '\n'.join(tr)
     if m.group(1) == '_ob_text':
         v = dict(zip(['pi', 'li'], a)); v.update(kw)
         text_check(v['pi'], v['li'], tr)
@@ -173,6 +344,10 @@ SPEC = {
     'obligations': [
         {'name': 'T.text', 'fn': '_ob_text', 'parts': 16, 'cond_timeout': 900, 'path_timeout': 60,
          'bound': '%d typed positions x %d literals' % (NP, NLIT)},
+        {'name': 'A.api', 'fn': '_ob_api', 'parts': 1, 'cond_timeout': 300, 'path_timeout': 60,
+         'bound': '%d API attempts under STRICT (datatype overrides by constructor and by setter, datatype objects of the wrong class / '
+                  'built under TOLERANT, open-ended extra field, duplicates, foreign / unknown child, invalid value): refused, or the '
+                  'element draws no validator error other than missing children and holds no over-long leaf' % NAPI},
         {'name': 'H.seg', 'fn': '_ob_seg2', 'parts': 16, 'cond_timeout': 900, 'path_timeout': 60,
          'bound': 'Segment PID: 3 initial states x every history of length <=2 over %d actions, STRICT vs TOLERANT' % NSEG},
         {'name': 'H.msg', 'fn': '_ob_msg2', 'parts': 16, 'cond_timeout': 900, 'path_timeout': 60,
